@@ -10,10 +10,16 @@ def parseChild (t : String) : Option Child :=
   | some [k, v, c, la, lo, o] => some { key := k, version := v, changeset := c, lat := la, lon := lo, orientation := o }
   | _ => none
 
+def negBase : Nat := 1000000000
+def showIdx (i : Nat) : String := if i ≥ negBase then s!"-{i - negBase}" else toString i
+
 def parseUpdate (t : String) : Option Update :=
   match ints t with
   | some [i, v, ts, c, la, lo, r] =>
-    if i < 0 then none else some { index := i.toNat, version := v, ts := ts, changeset := c, lat := la, lon := lo, reverse := r != 0 }
+    -- a negative index is out of range like any index beyond the list: the model's `index : Nat` carries it as
+    -- `negBase + |i|`, far beyond any child list, and the printers map it back
+    let idx : Nat := if i < 0 then negBase + i.natAbs else i.toNat
+    some { index := idx, version := v, ts := ts, changeset := c, lat := la, lon := lo, reverse := r != 0 }
   | _ => none
 
 def split (toks : List String) : List String × List String :=
@@ -25,11 +31,11 @@ def split (toks : List String) : List String × List String :=
   go toks false [] []
 
 def showChild (c : Child) : String := s!"{c.key}:{c.version}:{c.changeset}:{c.lat}:{c.lon}:{c.orientation}"
-def showUpd (u : Update) : String := s!"{u.index}:{u.version}:{u.ts}"
+def showUpd (u : Update) : String := s!"{showIdx u.index}:{u.version}:{u.ts}"
 def showPts (l : List (Int × Int)) : String := " ".intercalate (l.map fun p => s!"{p.1},{p.2}")
 
 def showRes (r : Result) : String :=
-  let e := match r.err with | some i => toString i | none => "-"
+  let e := match r.err with | some i => showIdx i | none => "-"
   s!"err={e} C " ++ " ".intercalate (r.children.map showChild) ++ " P " ++ " ".intercalate (r.updates.map showUpd)
 
 def handle (toks : List String) : String :=
